@@ -15,33 +15,31 @@ Definition count_of (p : list N) : N :=
   65535 - lenN (skipn 2 p) + (if pnth p 0 =? 0 then 0 else 1).
 
 Definition call (e : N) (p : list N) (d tail : bytes) : res rows :=
-  match e with
-  | 1 => h <- parse_header d ;; let '(v, c, s, l) := h in Ok [[v; c; s; l]]
-  | 2 => parse_tags d
-  | 3 => x <- parse_lcp_packet d ;; let '(c, i, l, v) := x in Ok [[c; i; l]; v]
-  | 4 => parse_lcp_options d
-  | 5 => parse_padt d tail
-  | 6 => parse_echo d
-  | 7 => handle_discovery (pnth p 0) d tail
-  | 8 => handle_session (pnth p 0) d tail
-  | 9 => x <- create_session (used_of p) (count_of p) (pnth p 1) ;; Ok [[fst x; snd x]]
-  | 10 => lcp_receive (pnth p 0) (pnth p 1) d
-  | 11 => ipcp_receive (pnth p 0) (pnth p 1) d
-  | 12 => ip6cp_receive (pnth p 0) (pnth p 1) d
-  | 13 => auth_receive (pnth p 0) (pnth p 1) d
-  | 20 => d6_message d
-  | 21 => d6_options d
-  | 22 | 23 => d6_ia d
-  | 24 => d6_iaaddr d
-  | 25 => d6_iaprefix d
-  | 26 => d6_duid d
-  | 27 => d6_handle p d
-  | 30 => parse_option82 d
-  | 31 => parse_vendor d
-  | 32 => sse_count d
-  | 33 | 34 | 35 => alg_pass (pnth p 0) d
-  | _ => Err
-  end.
+  if e =? 1 then (h <- parse_header d ;; let '(v, c, s, l) := h in Ok [[v; c; s; l]])
+  else if e =? 2 then parse_tags d
+  else if e =? 3 then (x <- parse_lcp_packet d ;; let '(c, i, l, v) := x in Ok [[c; i; l]; v])
+  else if e =? 4 then parse_lcp_options d
+  else if e =? 5 then parse_padt d tail
+  else if e =? 6 then parse_echo d
+  else if e =? 7 then handle_discovery (pnth p 0) d tail
+  else if e =? 8 then handle_session (pnth p 0) d tail
+  else if e =? 9 then (x <- create_session (used_of p) (count_of p) (pnth p 1) ;; Ok [[fst x; snd x]])
+  else if e =? 10 then lcp_receive (pnth p 0) (pnth p 1) d
+  else if e =? 11 then ipcp_receive (pnth p 0) (pnth p 1) d
+  else if e =? 12 then ip6cp_receive (pnth p 0) (pnth p 1) d
+  else if e =? 13 then auth_receive (pnth p 0) (pnth p 1) d
+  else if e =? 20 then d6_message d
+  else if e =? 21 then d6_options d
+  else if (e =? 22) || (e =? 23) then d6_ia d
+  else if e =? 24 then d6_iaaddr d
+  else if e =? 25 then d6_iaprefix d
+  else if e =? 26 then d6_duid d
+  else if e =? 27 then d6_handle p d
+  else if e =? 30 then parse_option82 d
+  else if e =? 31 then parse_vendor d
+  else if e =? 32 then sse_count d
+  else if (e =? 33) || (e =? 34) || (e =? 35) then alg_pass (pnth p 0) d
+  else Err.
 
 (* ---- exhaustive blocks: all byte strings of length [len] starting with [prefix], lexicographic *)
 Definition m32 : N := 4294967295.
